@@ -16,7 +16,7 @@ def cfg(name, view=False, inv=INV, emit=True, **kw):
     open("Units_MC_%s.cfg" % name, "w").write("\n".join(lines) + "\n")
 LIGHT = ["Reversible", "BackIsOriginal", "Composes", "Canonical", "TypeOK"]
 # invariant checking (history hidden by VIEW)
-cfg("inv_q", view=True, emit=False, MaxFactors="= 2", MaxTFactors="= 2",
+cfg("inv_q", view=True, emit=False, FactorNames='= {"m", "km", "s", "h"}', MaxFactors="= 2", MaxTFactors="= 2",
     Mags="<- M_one", ScaleKs="<- K_two", Kinds='= {"list", "array"}', Plan="<- Plan_inv2")
 cfg("inv_t", view=True, emit=False, Powers="<- P_pm3", TargetPowers="<- P_pm3",
     MaxFactors="= 2", MaxTFactors="= 2", Mags="<- M_two", ScaleKs="<- K_two", Kinds='= {"list", "array"}', Plan="<- Plan_inv2")
@@ -26,7 +26,7 @@ cfg("single_t", inv=LIGHT, FactorNames="<- N_all", TargetNames="<- N_all", MaxTF
 cfg("pair_q", inv=LIGHT, FactorNames="<- N_q7", TargetNames="<- N_q7", MaxFactors="= 2", MaxTFactors="= 2", Plan="<- Plan_conv1")
 cfg("pair_t", inv=LIGHT, FactorNames="<- N_mid", TargetNames="<- N_small", MaxFactors="= 2", MaxTFactors="= 2", Plan="<- Plan_conv1")
 cfg("triple_t", inv=LIGHT, FactorNames="<- N_q7", TargetNames="<- N_q7", MaxFactors="= 3", MaxTFactors="= 3", Plan="<- Plan_conv1")
-cfg("hist_q", inv=LIGHT, MaxFactors="= 1", MaxTFactors="= 1", Mags="<- M_one", ScaleKs="<- K_one", Kinds="<- Kinds_all", Plan="<- Plan_hist3q", Powers="<- P_pm1",
+cfg("hist_q", inv=LIGHT, MaxFactors="= 1", MaxTFactors="= 1", Mags="<- M_one", ScaleKs="<- K_one", Kinds='= {"list", "dict", "objarray", "array", "array2d"}', Plan="<- Plan_hist3q", Powers="<- P_pm1",
     TargetPowers="<- P_pm1", TargetNames="<- N_small")
 cfg("hist_t", inv=LIGHT, FactorNames="<- N_q7", TargetNames="<- N_small", MaxFactors="= 1", MaxTFactors="= 1", Mags="<- M_one", ScaleKs="<- K_one",
     Kinds="<- Kinds_all", Plan="<- Plan_hist3t")
